@@ -23,7 +23,7 @@ RULE = ('output specs: port trees to depth 2 (thorough 3) over names {a, ab, n, 
 RULE += ('; also: list outputs mutated after acceptance, namespace validators objecting to the empty mapping, identity of the objects the future reports')
 ASSUMPTIONS = ['a fresh Process class per case (emitting into a dynamic namespace adds namespaces to the class spec)',
                'reference model written from the statement; namespace creation by earlier emissions is tracked by the model']
-REQUIRED = ['own_rule_two_levels_down', 'emissions', 'accepted', 'rejected', 'rejected_valueerror', 'dynamic_accepted', 'nested_paths', 'unchanged_checks', 'listener_checks',
+REQUIRED = ['emission_from_exit_hook', 'emissions_from_a_notification', 'own_rule_two_levels_down', 'emissions', 'accepted', 'rejected', 'rejected_valueerror', 'dynamic_accepted', 'nested_paths', 'unchanged_checks', 'listener_checks',
             'success/true', 'success/false_by_outputs', 'dict_values', 'identity_checks', 'late_emissions', 'other_separator']
 BOUNDS = {'quick': '300 specs x 12 emission sequences', 'thorough': '3000 specs x 25 sequences'}
 NAMES = ['a', 'ab', 'n', 'x']
@@ -122,7 +122,8 @@ def gen_cases(tier, seed):
         spec = rand_out_ns(rng, depth, top=True)
         for _ in range(nseq):
             # (every fifth spec addresses its nested ports with another separator than '.')
-            yield {'spec': spec, 'emissions': rand_emissions(rng, spec), 'ret': rng.choice([None, 9, 'r', ['unsucc', 2]]), 'slash': s % 5 == 4}
+            yield {'spec': spec, 'emissions': rand_emissions(rng, spec), 'ret': rng.choice([None, 9, 'r', ['unsucc', 2]]), 'slash': s % 5 == 4,
+                   'exit_emission': s % 3 == 1}
 
 
 # --- building ------------------------------------------------------------------------------
@@ -166,9 +167,28 @@ _N = [0]
 class Emitter(plumpy.Process):
     SPEC = None
 
+    held_back = ()
+
     def run(self):
-        log = self.emit_log = []
-        for path, value in self.emissions:
+        self.emit_log = []
+        emissions = list(self.emissions)
+        if getattr(self, 'emit_last_on_exit', False) and emissions and emissions[-1][0] != '@mutate':
+            # the last emission is made by the hook that runs when the step is left (still before anybody judges the outputs)
+            self.held_back = [emissions.pop()]
+        self._emit(emissions)
+        ret = self.ret
+        if isinstance(ret, list):
+            return plumpy.UnsuccessfulResult(ret[1])
+        return ret
+
+    def on_exit_running(self):
+        super().on_exit_running()
+        held, self.held_back = self.held_back, ()
+        self._emit(held)
+
+    def _emit(self, emissions):
+        log = self.emit_log
+        for path, value in emissions:
             if path == '@mutate':
                 target = self.outputs
                 for part in value.split('.'):
@@ -183,11 +203,6 @@ class Emitter(plumpy.Process):
                 log.append(['ok', path, c11.plain(self.outputs) == before])
             except Exception as exc:  # noqa: BLE001
                 log.append(['raise', path, type(exc).__name__, c11.plain(self.outputs) == before])
-        ret = self.ret
-        if isinstance(ret, list):
-            return plumpy.UnsuccessfulResult(ret[1])
-        return ret
-
 
     def on_finished(self):
         if getattr(self, 'late', None):
@@ -201,8 +216,13 @@ class OutListener(plumpy.ProcessListener):
         super().__init__()
         self.emitted = []
 
+    echo = False  # answer the first emission it is told of with a derived output of its own (from inside the notification)
+
     def on_output_emitted(self, process, output_port, value, dynamic):
         self.emitted.append([output_port, value, dynamic])
+        if self.echo:
+            self.echo = False
+            process.out('zz_echo', 2)
 
 
 def make_class(spec, slash=False):
@@ -324,11 +344,15 @@ def run_case(case):
             return {'viol': [], 'obs': obs, 'inconclusive': 'spec-error:%s' % type(exc).__name__, 'key': case, 'nontrivial': False}
         proc.emissions = copy.deepcopy(emissions)
         proc.ret = case['ret']
+        proc.emit_last_on_exit = bool(case.get('exit_emission'))
+        obs['emission_from_exit_hook'] = int(bool(case.get('exit_emission')) and bool(emissions) and emissions[-1][0] != '@mutate')
         late = None
         if spec[1].get('dynamic') and not spec[1].get('valid_type') and not spec[1].get('validator') and 'zz_late' not in spec[2]:
             late = proc.late = ('zz_late', 1)
             obs['late_emissions'] = 1
         lst = OutListener()
+        echo = bool(late) and case.get('echo', True) and 'zz_echo' not in spec[2]
+        lst.echo = echo
         proc.add_process_listener(lst)
         task = drv.loop.create_task(proc.step_until_terminated())
         try:
@@ -350,6 +374,7 @@ def run_case(case):
         result = proc.result() if state == 'finished' else None
         exc_desc = repr(proc.exception()) if state == 'excepted' else None
     model = Model(spec, own_namespace_class=bool(case.get('slash')))
+    echoed = False
     exp_outputs = {}
     exp_emitted = []
     shape = c11._shape(spec)
@@ -378,6 +403,13 @@ def run_case(case):
                 obs['dynamic_accepted'] += 1
             _store(exp_outputs, path, value)
             exp_emitted.append([path, value, verdict[1]])
+            if echo and not echoed:
+                # the listener answers the first notification with an output of its own: stored and announced like any other
+                echoed = True
+                model.emit('zz_echo', 2)
+                exp_outputs['zz_echo'] = 2
+                exp_emitted.append(['zz_echo', 2, True])
+                obs['emissions_from_a_notification'] = 1
             if got[0] != 'ok':
                 viol.append(V('rejected-valid-output', 'rejected-valid-output:%s:%s' % ('dynamic' if verdict[1] else 'declared', got[2] if len(got) > 2 else '?'),
                               'out() raised %s for an acceptable value: %s' % (got[2:], ctx)))
@@ -399,6 +431,12 @@ def run_case(case):
     if not viol and late and state == 'finished':
         exp_outputs['zz_late'] = 1
         exp_emitted.append(['zz_late', 1, True])
+        if echo and not echoed:
+            # (nothing was announced before: the late emission is the first notification the echoing listener gets)
+            echoed = True
+            exp_outputs['zz_echo'] = 2
+            exp_emitted.append(['zz_echo', 2, True])
+            obs['emissions_from_a_notification'] = 1
     if not viol:
         obs['listener_checks'] = len(exp_emitted)
         sep = '/' if case.get('slash') else '.'
